@@ -231,7 +231,7 @@ def generate(rng, prop, tier):
         sc['prehistory'] = rng.random() < 0.3
     elif mode == 'adversarial':
         sc['fn'] = rng.choice(['sample', 'sample', 'sample_square', 'sample_square_unique', 'sample_square_unique', 'sample_lhs', 'sample_lhs',
-                               'sample_rand', 'sample_rand_poi', 'sample_tt', 'sample_tt', 'unique_impossible', 'sample_func'])
+                               'sample_rand', 'sample_rand_poi', 'sample_tt', 'sample_tt', 'unique_impossible', 'unique_full_support', 'sample_func'])
         sc['policy'] = rng.choice(['max', 'min', 'repeat', 'tie', 'prng', 'prng'])
         sc['m'] = rng.choice([1, 2, 3, 5, 7, 10, 16, 25])
         if sc['fn'] in ('sample_lhs', 'sample_rand', 'sample_rand_poi') and rng.random() < 0.6:
@@ -614,6 +614,21 @@ def execute_adversarial(sc):
             if sg is not None and sum(1 for e in sg.log if e[0] == 'choice' and e[2] is not None and np.prod(e[2]) > 1) > 1:
                 stats['probe.unique_restart_path'] = 1
             h.append(np.asarray(I).tobytes())
+        elif fn == 'unique_full_support':
+            # exactly as many distinct rows as the tensor has non-zero entries: possible, must be delivered (flat tensor, small support)
+            nn = [k for k in n[:3]]
+            while int(np.prod(nn)) > 8:
+                nn[int(np.argmax(nn))] -= 1
+            Y = make_tt(nn, 1, sc['tseed'], dist='pos')
+            Y = [0.5 + 0.5 * G for G in Y]
+            Y[0][0, 0, 0] = 0.0 if nn[0] > 1 else Y[0][0, 0, 0]
+            support = int(np.count_nonzero(tt_full(Y)))
+            sg = seed = SimGen(adversarial_policy('prng', sc['pseed']), cap=60000)
+            I = teneva.sample_square(Y, support, unique=True, seed=seed)
+            if check_index_array('sample_square(unique, m = support size)', I, support, nn, V):
+                if len({tuple(r) for r in np.asarray(I).tolist()}) != support:
+                    V.append(viol('unique', 'sample_square(unique=True, m=%d) on a tensor with %d non-zero entries returned repeated rows' % (support, support)))
+            stats['probe.unique_full_support'] = 1
         elif fn == 'unique_impossible':
             # fewer non-zero entries than requested samples: must be rejected, not answered with repeats
             Y = [np.zeros((1, k, 1)) for k in n]
